@@ -198,6 +198,10 @@ func GoLogical(on bool) {}
 // null only (the "arbitrary content" alternative of the decoder model is switched off).
 func JSONArbitrary(on bool) {}
 
+// JSONUnbounded: encodings produced by json.Marshal on this path may be arbitrarily long (default: the
+// model bounds them by 60000 bytes, the size a Lightning custom message can carry).
+func JSONUnbounded() {}
+
 // AssertNoFlow: symbolically a two-run non-interference obligation (the value must not depend on the
 // named secret symbols except through public-key derivation and hashing).  Natively: the value's bytes
 // must not contain any scripted secret verbatim or hex-encoded.
